@@ -37,6 +37,8 @@ struct Th {
   token: bool,
   handle: Option<std::thread::Thread>,
   prio: i64,
+  /// non-spin yield points this thread has arrived at
+  nsteps: u64,
   spin_seen: u64,
   /// consecutive spin iterations during which nobody else made progress
   spin_idle: u32,
@@ -51,6 +53,10 @@ pub enum Strategy {
   Pct { d: usize, k: u64 },
   /// follow recorded decisions (thread ids), then run the lowest runnable id
   Replay(Vec<u8>),
+  /// PCT with everything given: initial priorities per thread and change points `(thread, n)`:
+  /// the thread is demoted below everybody when it arrives at its n-th (non-spin) yield point.
+  /// Used to enumerate the PCT schedule space of a small scenario systematically.
+  PctExplicit { prios: Vec<i64>, cps: Vec<(usize, u64)> },
 }
 
 struct St {
@@ -105,7 +111,14 @@ impl Ctl {
     let mut rng = StdRng::seed_from_u64(seed);
     let mut th = Vec::new();
     for i in 0..n + spares {
-      th.push(Th { st: if i < n { TS::New } else { TS::Spare }, token: false, handle: None, prio: rng.random_range(1000..2000), spin_seen: 0, spin_idle: 0, panicked: None });
+      th.push(Th { st: if i < n { TS::New } else { TS::Spare }, token: false, handle: None, prio: rng.random_range(1000..2000), nsteps: 0, spin_seen: 0, spin_idle: 0, panicked: None });
+    }
+    if let Strategy::PctExplicit { prios, .. } = &strat {
+      for (i, p) in prios.iter().enumerate() {
+        if i < th.len() {
+          th[i].prio = *p;
+        }
+      }
     }
     let mut cps = vec![];
     if let Strategy::Pct { d, k } = &strat {
@@ -269,6 +282,15 @@ impl Ctl {
         // strictly by priority (long idle spinners were already filtered out above)
         *c.iter().max_by_key(|&&i| s.th[i].prio).unwrap()
       }
+      Strategy::PctExplicit { cps, .. } => {
+        if let Some(m) = me {
+          if s.th[m].st != TS::Spin && cps.contains(&(m, s.th[m].nsteps)) {
+            let lo = s.th.iter().map(|t| t.prio).min().unwrap_or(0);
+            s.th[m].prio = lo - 1;
+          }
+        }
+        *c.iter().max_by_key(|&&i| s.th[i].prio).unwrap()
+      }
     };
     s.decisions.push(pick as u8);
     Some(pick)
@@ -316,14 +338,17 @@ impl Ctl {
     s.steps += 1;
     s.last_step_at = Instant::now();
     if as_state == TS::Spin {
-      if s.th[tid].spin_seen == s.progress {
+      // progress made by the *other* threads since this thread's previous spin (its own loads between
+      // two spins - "load; spin_loop" retry loops - do not count)
+      let others = s.progress - s.th[tid].nsteps;
+      if s.th[tid].spin_seen == others {
         s.th[tid].spin_idle += 1;
       } else {
         s.th[tid].spin_idle = 0;
       }
-      s.th[tid].spin_seen = s.progress;
+      s.th[tid].spin_seen = others;
     } else {
-      s.th[tid].spin_idle = 0;
+      s.th[tid].nsteps += 1;
       s.progress += 1;
     }
     s.th[tid].st = as_state;
